@@ -6,6 +6,9 @@ cd /repo && git status --short | grep -q . && { echo "/repo not clean"; exit 2; 
 KEEP=$(mktemp -d /tmp/evidence.keep.XXXXXX); cp -a /verif/evidence/. "$KEEP"/
 for d in /verif/seeded/*/; do
   name=$(basename $d); id=${name%%-*}
+  # a change that breaks its property by way of another property's territory (freed memory, closures) is
+  # reported by that property's check: check_with.txt names it
+  [ -f $d/check_with.txt ] && id=$(cat $d/check_with.txt)
   [ -f $d/superseded.txt ] && { echo "$name: superseded (see superseded.txt)"; continue; }
   P=$d/patch.diff; [ -f $d/patch_ported.diff ] && P=$d/patch_ported.diff
   cd /repo
